@@ -232,6 +232,53 @@ def case_py7zr_tree(rng, chain, encoded=True):
             "methods": sorted(set(chain_names(chain))), "desc": "py7zr writeall tree %s%s" % (chain, "" if encoded else " raw-header")}
 
 
+def case_py7zr_history(rng, ops, encoded=True):
+    """a py7zr history  w(op0) a(op1) a(op2) ...  with ops  ("file", chain) = one writestr member of its own size,
+    ("files", chain) = two members, ("dir", None) = a session that adds a directory only, ("none", None) = a session
+    that adds nothing.  Single-file and directory-only sessions give sub-stream counts like [1, 0, 1, 1] and NO SIZE
+    record, so the size of each member is that of its folder"""
+    tmp = tempfile.mkdtemp(prefix="c10h_")
+    used = []
+    try:
+        target = os.path.join(tmp, "h.7z")
+        k = 0
+        for j, (op, ch) in enumerate(ops):
+            filters = arch.CHAINS[ch or "copy"]
+            with py7zr.SevenZipFile(target, "w" if j == 0 else "a", filters=filters) as z:
+                if not encoded:
+                    z.set_encoded_header_mode(False)
+                if op in ("file", "files"):
+                    used.append(ch)
+                    for _ in range(1 if op == "file" else 2):
+                        # distinct sizes: a size taken from the wrong folder is visible
+                        z.writestr(arch.pattern_bytes(rng, 40 + 37 * k + rng.randrange(30), "text"), "%s%d" % (rng.choice(NAME_POOL), k))
+                        k += 1
+                elif op == "dir":
+                    used.append(ch or "copy")          # the session's (empty) folder carries the session's coders
+                    d = os.path.join(tmp, "dir%d" % k)
+                    os.makedirs(d)
+                    z.writeall(d, "folder%d" % k)
+                    k += 1
+        data = open(target, "rb").read()
+    finally:
+        shutil.rmtree(tmp, ignore_errors=True)
+    return {"source": "py7zr", "special": "history", "archive": data.hex(), "password": None, "aes": False,
+            "methods": sorted(set(sum([chain_names(c) for c in used], []))),
+            "desc": "py7zr history %s%s" % (" ".join("%s(%s)" % (o, c or "-") for o, c in ops), "" if encoded else " raw-header")}
+
+
+def gen_history_ops(rng):
+    pool = ["copy", "lzma2", "deflate", "bzip2", "zstd", "lzma"]
+    ops = [("file", rng.choice(pool))]
+    for _ in range(rng.choice([2, 3, 3, 4])):
+        ops.append(rng.choice([("file", rng.choice(pool)), ("file", rng.choice(pool)), ("dir", None), ("none", None),
+                               ("files", rng.choice(pool))]))
+    if not any(o in ("dir", "none") for o, _ in ops[1:-1]):
+        ops.insert(rng.randrange(1, len(ops)), ("dir", None))       # an empty folder BETWEEN data folders
+        ops.append(("file", rng.choice(pool)))
+    return ops
+
+
 def case_py7zr_empty(rng):
     bio = io.BytesIO()
     with py7zr.SevenZipFile(bio, "w"):
@@ -259,11 +306,29 @@ def case_ref(rng, special=None, feature=None):
                             "ctime": None, "atime": None})
         if special == "nameless":
             members = [m for m in members if m["kind"] == "file"][:1] or members[:1]
+        if special == "zero_nosize":
+            # one member per folder, different sizes, plus a folder without sub-streams that is not the last one:
+            # NumUnpackStream = [1, 0, 1, ...] and no SIZE record
+            nfiles = rng.choice([2, 3, 3, 4])
+            members = [m for m in members if m["kind"] != "file"][:2]
+            for k in range(nfiles):
+                members.insert(rng.randrange(len(members) + 1),
+                               {"name": "f%d_%s" % (k, rng.choice(["a", "ü", "x.bin"])), "kind": "file",
+                                "data": arch.pattern_bytes(rng, 20 + 53 * k + rng.randrange(40), "text"),
+                                "mtime": c06.FT + k, "attr": 0x20, "ctime": None, "atime": None})
         if special == "dupnames" and len(members) >= 2:
             members[-1]["name"] = members[0]["name"]
         lay = c06.gen_layout(rng, members, feature if feature in ("packpos", "partial_crc", "zero_folder", "partial_vectors") else None)
         if feature == "folder_crc":
             lay["crc"] = "folder"
+        if special == "zero_nosize":
+            nd = sum(1 for m in members if m["kind"] == "file")
+            lay["folders"] = [[i] for i in range(nd)]
+            lay["coders"] = [rng.choice(["copy", "lzma2", "deflate", "bzip2"]) for _ in range(nd)]
+            lay["zero_folder_after"] = rng.randrange(nd - 1)
+            lay.pop("no_substreams", None)
+            if lay.get("crc") in ("folder", "folder-partial"):
+                lay["crc"] = "substream"
         # layouts py7zr still cannot read (known C06 findings) stay out: no SubStreamsInfo, directory entries without the
         # directory attribute; an empty FILE carrying the directory attribute contradicts itself
         if set(c06.classify(members, lay)) & {"no_substreams", "dir_without_dir_attribute", "emptyfile_with_dir_attribute"}:
@@ -338,6 +403,16 @@ def gen_cases(rng, tier):
         cases.append(case_py7zr_sessions(rng, ["copy+aes", "lzma2"], encoded=True))
         cases.append(case_py7zr_tree(rng, "lzma2+aes"))
         cases.append(case_py7zr_sessions(rng, ["zstd+aes"], header_enc=True))
+    # histories with directory-only / empty sessions between single-file sessions (sub-stream counts with 0, no SIZE record)
+    fixed = [[("file", "copy"), ("dir", None), ("file", "copy"), ("file", "lzma2")],
+             [("file", "lzma2"), ("none", None), ("file", "deflate")],
+             [("file", "copy"), ("dir", None), ("dir", None), ("file", "bzip2"), ("files", "copy")]]
+    for i, ops in enumerate(fixed):
+        cases.append(case_py7zr_history(rng, ops, encoded=i % 2 == 0))
+    for i in range(6 if quick else 120):
+        cases.append(case_py7zr_history(rng, gen_history_ops(rng), encoded=i % 2 == 1))
+    for i in range(8 if quick else 250):
+        cases.append(case_ref(rng, "zero_nosize"))
     cases.append(case_py7zr_empty(rng))
     # (b) reference-written healthy layouts
     for i in range(110 if quick else 2500):
